@@ -29,13 +29,7 @@ func Err(a int) (int, error) { return a, nil }
 // want: package-level variable global
 func Global(a int) int { return a + global }
 
-// want: assignment to something that is not a local variable
-func (s *S) Write(a int) int {
-	s.n = a
-	return a
-}
-
-// want: assignment to something that is not a local variable
+// want: assignment to something that is neither a local variable nor a field of a parameter
 func Store(b []byte) int {
 	b[0] = 1
 	return 0
@@ -161,5 +155,30 @@ func TypeSwitch(v interface{}) int {
 	case int:
 		return 1
 	}
+	return 0
+}
+
+// want: call of S.Bump, which writes fields
+func (s *S) CallsWriter(a int) int { return s.Bump(a) + 1 }
+
+func (s *S) Bump(a int) int {
+	s.n += a
+	return s.n
+}
+
+// want: inside a loop
+func ExternInLoop(n int) int {
+	t := 0
+	for i := 0; i < n; i++ {
+		t += clock()
+	}
+	return t
+}
+
+func clock() int { return global }
+
+// want: unsupported statement *ast.DeferStmt
+func DeferOther(s *S) int {
+	defer s.Bump(1)
 	return 0
 }
